@@ -83,3 +83,10 @@ Theorem C01_half_chord_enclosed : forall aI bI a b, encloses aI a -> encloses bI
   defined [a; b] half_chord_e -> encloses (@half_chord I.type IvTNum aI bI) (@half_chord R RTNum a b).
 Proof. exact half_chord_transfer. Qed.
 Print Assumptions C01_half_chord_enclosed.
+
+(* the slant optical-depth loop (sums over the chord segments of one tangent layer) *)
+Theorem C01_tau_enclosed : forall sq sI sR rI rR pI pR l w,
+  Forall2 encl_list sI sR -> encl_list rI rR -> encl_list pI pR ->
+  encloses (@tau_loop _ IvNum sq sI rI pI l w) (@tau_loop R RNum sq sR rR pR l w).
+Proof. exact tau_loop_transfer. Qed.
+Print Assumptions C01_tau_enclosed.
